@@ -21,7 +21,7 @@ ASSUMPTIONS = ['segments of one plane are pairwise disjoint (a partition)']
 PLAN = {'quick': {'gen': 8}, 'thorough': {'gen': 16, 'tests': 1}}
 REQUIRED_BUCKETS = ['k=1', 'k=2', 'k=3-8', 'bbox-overlap', 'style:stripes', 'style:blobs', 'style:interleaved',
                     'chain:1', 'chain:2', 'chain:2-segmented', 'propagated', 'padded', 'tilt-chain', 'segment-tilts', 'fitted-vs-global',
-                    'fft', 'fft:scratch', 'groups:partial']
+                    'fft', 'fft:scratch', 'groups:partial', 'rescale-after-use']
 REQUIRED_ANCHORS = ['probe:propagate_dft', 'probe:propagate_fft', 'probe:Wavefront.insert', 'anchor:Plane.multiply', 'anchor:slice_offset', 'anchor:boundary_slice',
                     'anchor:field.reduce', 'anchor:field._merge']
 REQUIRED_ORACLES = ['seg=mono:field', 'seg=mono:intensity', 'seg=mono:propagated', 'coherent-sum', 'pad=embed',
@@ -209,6 +209,23 @@ def workload(ctx, lentil):
                      fm, fs2, desc, scale_tol=tolf)
             except Exception as e:
                 ctx.check(False, 'seg=mono:fft', f'fft|raises={type(e).__name__}', str(e), desc)
+
+        # the planes have been used by now: their resampled copies are planes like any other - cropped sub-arrays and their offsets
+        # belong to the resampled arrays, for the global and for the per-segment description alike
+        if i % 4 == 2:
+            sfac = float(rng.choice([2.0, 1.5, 3.0]))      # (enlarging: no segment can vanish from the resampled mask)
+            ctx.bucket('rescale-after-use')
+            try:
+                with probe.quiet():
+                    rm_, rs_ = mono.rescale(sfac), segd.rescale(sfac)
+                    fresh = lentil.Pupil(amplitude=amp, opd=opd, mask=segs.astype(float), pixelscale=dx, focal_length=z).rescale(sfac)
+                wrm, wrs, wrf = lentil.Wavefront(wl) * rm_, lentil.Wavefront(wl) * rs_, lentil.Wavefront(wl) * fresh
+                _cmp(ctx, 'seg=mono:field', 'after-rescale', 'segmented and monolithic description differ after the (already used) planes were rescaled',
+                     wrm, wrs, dict(desc, scale=sfac))
+                _cmp(ctx, 'seg=mono:field', 'after-rescale|used-vs-fresh', 'a rescaled plane that had been used before differs from the same plane rescaled fresh',
+                     wrf, wrs, dict(desc, scale=sfac))
+            except Exception as e:
+                ctx.check(False, 'seg=mono:field', f'rescale-after-use|raises={type(e).__name__}', str(e), desc)
 
         # chains that carry tilt metadata: tilted wavefront and/or Tilt planes around the (segmented | monolithic) pupil
         if i % 2 == 1:
